@@ -36,9 +36,9 @@ def build(repo):
     f = src.fn(FILE, "add", "impl std :: ops :: Add for & Primitive")
     R = [
         Rule("R1", "string ! ( $$e )", "Primitive :: Str ( $$e )", why="string! shorthand"),
-        Rule("R1", "x . to_owned ( ) + & y . to_string ( )", "concat ( x , & y . to_string ( ) )", why="String + &str: the characters of the left followed by those of the right"),
-        Rule("R1", "x . to_string ( ) + y", "concat ( & x . to_string ( ) , y )", why="String + &str"),
-        Rule("R1", "x . to_owned ( ) + y", "concat ( x , y )", why="String + &str"),
+        Rule("R1", "$a . to_owned ( ) + & $b . to_string ( )", "concat ( $a , & $b . to_string ( ) )", why="String + &str: the characters of the left followed by those of the right"),
+        Rule("R1", "$a . to_string ( ) + $b", "concat ( & $a . to_string ( ) , $b )", why="String + &str"),
+        Rule("R1", "$a . to_owned ( ) + $b", "concat ( $a , $b )", why="String + &str"),
     ]
     fns, obls = [], []
     for name, pat, sig, post in ARMS:
